@@ -12,6 +12,11 @@ ties the three attributes the model reads (`_ws`, `_have_made_a_successful_conne
 `wsOpen`, `everConnected`, `stopping`; the remaining connection flags of the model (`halfOpen`, `wsClosing`,
 `stopPending`) are state of the *environment* (ClientService / autobahn) and appear on the interpreter side as
 `Env.raises` (autobahn's `sendMessage` raising `Disconnected`) and as the Deferred that `stopService()` returns.
+
+Deliberate narrowing: `d = defer.maybeDeferred(self._connector.stopService)` is the recorded call `_connector.stopService()`
+whose value is the Deferred.  A synchronous exception of that call propagates in the IR, whereas `maybeDeferred` would
+turn it into a failed Deferred; `Env.raises` on it is used only as an observation device (`rc_stop_flag_before_call`:
+what has already been done when the call is made), no agreement theorem with the model contains such an outcome.
 -/
 set_option linter.unusedSimpArgs false
 set_option linter.unusedVariables false
